@@ -1521,7 +1521,7 @@ def _dotted(n):
     return None
 
 
-MODULE_ALIASES = {"np", "config", "math", "torch", "struct", "warnings", "os", "sys", "fftpack"}
+MODULE_ALIASES = {"np", "config", "math", "torch", "struct", "warnings", "os", "sys", "fftpack", "io", "re"}
 BUILTIN_NAMES = {"len", "min", "max", "int", "float", "bool", "abs", "range", "isinstance", "tuple", "list", "sum",
                  "forall", "exists", "implies", "old", "ite"}
 
